@@ -287,7 +287,7 @@ func genC14Cases(c *orch.Ctx) []*c14Case {
 				sc.Flows[fn] = f
 			}
 			p.Config.Schemes = append(p.Config.Schemes, sc, synth.SecScheme{Name: "oidcScheme", Type: "openIdConnect", Description: "OIDC", OpenIDConnectURL: "https://id.example.com/.well-known/openid-configuration"})
-			cases = append(cases, &c14Case{Grammar: "config", Label: fmt.Sprintf("oauth2 flows mask=%04b openapi=%s", mask, ver), Project: p, Argv: c14Commands[vi%2]})
+			cases = append(cases, &c14Case{Grammar: "config", Label: fmt.Sprintf("oauth2 flows mask=%04b openapi=%s", mask, ver), Project: p, RawCfg: p.Config.JSON(), Argv: c14Commands[vi%2]})
 		}
 	}
 	raw := []string{"", "{", "[]", "null", "42", "\"str\"", "{\"commonConfig\": }", "// only a comment\n", "\ufeff{}", "{'commonConfig':{'controllerGlobs':['./ctl/*.go',],},}", "{commonConfig:{controllerGlobs:[1,2,3]}}", "{\"routesConfig\":{\"engine\":[\"gin\"]}}", strings.Repeat("[", 5000), "{\"a\":" + strings.Repeat("{\"a\":", 2000) + "1" + strings.Repeat("}", 2000) + "}"}
